@@ -77,6 +77,27 @@ def run_case(case, col=None):
 
     s = case["shape"]
     out = []
+    if case.get("kind") == "bad-copy":
+        # set(other ABI instance): allowed only between scalar types of the same width (uintN/byte) or bool<-bool
+        src, dst = case["src"], case["dst"]
+
+        def bits(x):
+            return 8 if x[0] == "byte" else (x[1] if x[0] == "uint" else None)
+
+        allowed = (src[0] == dst[0] == "bool") or (bits(src) is not None and bits(src) == bits(dst))
+        try:
+            diff.reset_pyteal_state()
+            a = S.pt_spec(pt, src).new_instance()
+            b = S.pt_spec(pt, dst).new_instance()
+            b.set(a)
+            if not allowed:
+                out.append(("copy-accepted", "%s.set(<%s instance>) was accepted: a value that does not fit would be stored unchecked" % (S.sdk_str(dst), S.sdk_str(src))))
+        except diff.pyteal_errors():
+            if allowed:
+                out.append(("copy-rejected", "%s.set(<%s instance>) was rejected" % (S.sdk_str(dst), S.sdk_str(src))))
+        finally:
+            diff.reset_pyteal_state()
+        return out
     if case.get("kind") == "overflow":
         n = case["bits"]
         val = case["value"]
@@ -212,7 +233,7 @@ def _shape_shrinks(s, v, plan):
 
 
 def shrinks(case):
-    if case.get("kind") == "overflow":
+    if case.get("kind") in ("overflow", "bad-copy"):
         return
     if len(case["configs"]) > 1:
         for cfg in case["configs"]:
@@ -230,6 +251,9 @@ def case_strategy(draw, tier):
         b = 8 if bits == "byte" else bits
         val = draw(st.sampled_from([2**b - 1, 2**b, 2**b + 1, 2**64 - 1, 0, -1, 2**64]))
         return {"kind": "overflow", "shape": ["uint", b], "bits": bits, "value": val, "versions": VERSIONS[tier][:2]}
+    if draw(st.integers(0, 19)) == 0:
+        sc = [["bool"], ["byte"], ["uint", 8], ["uint", 16], ["uint", 32], ["uint", 64]]
+        return {"kind": "bad-copy", "shape": ["bool"], "src": draw(st.sampled_from(sc)), "dst": draw(st.sampled_from(sc))}
     s = draw(S.shape_strategy(max_depth=3))
     v = draw(S.value_strategy(s))
     plan = draw(P.plan_strategy(s))
@@ -247,8 +271,8 @@ def shard(tier, seedv, k, n, col: Collector):
     def body(case):
         col.case()
         res = run_case(case, col)
-        if case.get("kind") == "overflow":
-            col.cls("kind:overflow")
+        if case.get("kind") in ("overflow", "bad-copy"):
+            col.cls("kind:" + case["kind"])
         else:
             s = case["shape"]
             col.cls("top:" + s[0])
@@ -259,7 +283,7 @@ def shard(tier, seedv, k, n, col: Collector):
         case.pop("_rejected", None)
         for b, d in res:
             col.fail(b, d, case)
-        if not res and case.get("kind") != "overflow" and len(col.samples) < 3 and S.nontrivial(case["shape"]):
+        if not res and case.get("kind") not in ("overflow", "bad-copy") and len(col.samples) < 3 and S.nontrivial(case["shape"]):
             col.sample({"type": S.sdk_str(case["shape"]), "value": case["value"], "plan": case["plan"], "encoding": S.encode(case["shape"], S.unjson(case["shape"], case["value"])).hex()})
 
-    hyp_run(body, case_strategy(tier), N_EX[tier], seedv, key=lambda c: [c["shape"], c["value"], c.get("plan")], col=col)
+    hyp_run(body, case_strategy(tier), N_EX[tier], seedv, key=lambda c: [c["shape"], c.get("value"), c.get("plan"), c.get("src"), c.get("dst")], col=col)
